@@ -711,6 +711,9 @@ def tecmp_samples(rng):
     k = rng.choice([0, 1, 3, 9])
     out.append(tecmp_hdr(rng.below(256), 2, 0, 12 + 12 * k) + rng.bytes(12 + 12 * k))
     out.append(tecmp_hdr(rng.below(256), rng.below(256), rng.below(65536), 8) + rng.bytes(8))
+    # CAN / CAN-FD with a length byte above the CAN-FD maximum and all those bytes present
+    d = rng.choice([65, 68, 100, 200, 255])
+    out.append(tecmp_hdr(rng.below(256), 3, rng.choice([2, 3]), 5 + d + 3) + be(rng.next() & 0xFFFFFFFF, 4) + bytes([d]) + rng.bytes(d + 3))
     # status messages whose announced payload is shorter than their fixed part (bus status < 12 + 12, capture-module status < 36)
     n = rng.choice([0, 1, 5, 11, 12, 13, 23])
     out.append(tecmp_hdr(rng.below(256), 2, 0, n) + rng.bytes(n))
